@@ -90,7 +90,8 @@ def validation_and_orientation(F, S):
         raise AnalysisBroken("WriteCustomTileset: no writes")
     site = final_site_facts(eng, wr, writes[0]["id"]) or set()
     inst = T + "WriteCustomTileset#validated-first"
-    if ("ev", "called", T + "ValidateTileset") in site:
+    from ..rules_valid import validated
+    if validated(F, wr, site, T + "ValidateTileset"):
         out.append(ok("R-MUSTCALL", inst, wr.loc(writes[0]["id"]), wr.qn, "a picture violating the tileset constraints is refused before anything is written", "ValidateTileset dominates the first write"))
     else:
         out.append(bad("R-MUSTCALL", inst, wr.loc(writes[0]["id"]), wr.qn, "a picture violating the tileset constraints is refused before anything is written", "not dominated"))
@@ -107,12 +108,24 @@ def validation_and_orientation(F, S):
         orient = F.method_value(B + "::GetScanLineOrientation", pic)
         good = any(f[0] == "==" and orient in (f[1], f[2]) and ("const", bu) in (f[1], f[2]) for f in s2)
         if not good and orient[0] == "cond" and orient[2][0] == "const" and orient[3][0] == "const":
-            # the orientation expression is `c ? TopDown : BottomUp`: comparing it with BottomUp is the test !c
-            from ..flow import cond_facts
-            inv_if = [x for x in wr.nodes if x["k"] == "IfStmt" and inv[0]["id"] in wr.subtree(x["then"])]
+            # the orientation expression is `c ? A : B` over a two-valued enum: evaluate the flip guard on both values; the
+            # flip must happen exactly for BottomUp (however the comparison is spelled: == BottomUp, != TopDown, ...)
+            inv_if = [x for x in wr.nodes if x["k"] == "IfStmt" and (inv[0]["id"] in wr.subtree(x["then"])
+                                                                    or (x.get("else") is not None and inv[0]["id"] in wr.subtree(x["else"])))]
             if inv_if:
-                ct = wr.term(inv_if[-1]["cond"])
-                good = ct in (("op", "==", orient, ("const", bu)), ("op", "==", ("const", bu), orient))
+                gi = inv_if[-1]
+                ct = wr.term(gi["cond"])
+                in_then = inv[0]["id"] in wr.subtree(gi["then"])
+
+                def ev(val):
+                    if ct[0] == "op" and ct[1] in ("==", "!=") and orient in (ct[2], ct[3]):
+                        k = ct[3] if ct[2] == orient else ct[2]
+                        if k[0] == "const":
+                            r = (val == k[1]) if ct[1] == "==" else (val != k[1])
+                            return r if in_then else (not r)
+                    return None
+                td_v = [e["value"] for e in en["enumerators"] if e["name"] == "TopDown"][0]
+                good = ev(bu) is True and ev(td_v) is False
         detail = "flip guarded by orientation == BottomUp: %s" % good
     if good:
         out.append(ok("R-MUSTCALL", inst, wr.loc(inv[0]["id"]), wr.qn, "bottom-up pictures (and only those) are flipped before writing, so the file is always top-down", detail))
@@ -142,7 +155,7 @@ def validation_and_orientation(F, S):
         h = rd.term(ci[0]["args"][2])
         good = h[0] == "op" and h[1] == "*" and ("const", -1) in (h[2], h[3]) and "pixelHeight" in repr(h) or (h[0] == "un" and h[1] == "-")
         site = final_site_facts(eng2, rd, ci[0]["id"]) or set()
-        allv = all(("ev", "called", q) in site for q in (T + "ValidateFileSignatureHeader", T + "TilesetHeader::Validate", T + "PpalHeader::Validate", T + "ValidatePaletteHeader"))
+        allv = all(validated(F, rd, site, q) for q in (T + "ValidateFileSignatureHeader", T + "TilesetHeader::Validate", T + "PpalHeader::Validate", T + "ValidatePaletteHeader"))
     if good:
         out.append(ok("R-MUSTCALL", inst, rd.loc(ci[0]["id"]), rd.qn, "a custom tileset is returned top-down (negated height)", fmt_term(h)))
     else:
@@ -154,16 +167,16 @@ def validation_and_orientation(F, S):
         out.append(bad("R-ORDER", inst, rd.loc(rd.body), rd.qn, "all four section headers are validated before the bitmap is allocated from them", "not dominated"))
     inst = T + "ReadCustomTileset#validated"
     need = [T + "ValidatePixelHeader", T + "ValidateTileset"]
-    if all(("ev", "called", q) in ex for q in need):
+    if all(validated(F, rd, ex, q) for q in need):
         out.append(ok("R-MUSTCALL", inst, rd.loc(rd.body), rd.qn, "the pixel header and the tileset constraints are validated on every returning path", "ValidatePixelHeader, ValidateTileset"))
     else:
-        out.append(bad("R-MUSTCALL", inst, rd.loc(rd.body), rd.qn, "the pixel header and the tileset constraints are validated on every returning path", "missing: %s" % [q.split("::")[-1] for q in need if ("ev", "called", q) not in ex]))
+        out.append(bad("R-MUSTCALL", inst, rd.loc(rd.body), rd.qn, "the pixel header and the tileset constraints are validated on every returning path", "missing: %s" % [q.split("::")[-1] for q in need if not validated(F, rd, ex, q)]))
     # ReadTileset: custom branch iff the detector says so; bitmap branch validates too
     rt = F.fn(T + "ReadTileset", nparams=1, pred=lambda f: "&&" not in f.key)
     eng3 = Engine(F, S)
     ex = eng3.analyze(rt, frozenset()) or frozenset()
     inst = T + "ReadTileset#both-branches-validated"
-    if ("ev", "called", T + "ValidateTileset") in ex:
+    if validated(F, rt, ex, T + "ValidateTileset"):
         out.append(ok("R-MUSTCALL", inst, rt.loc(rt.body), rt.qn, "whichever format is detected, the returned picture passed ValidateTileset", "on every returning path"))
     else:
         out.append(bad("R-MUSTCALL", inst, rt.loc(rt.body), rt.qn, "whichever format is detected, the returned picture passed ValidateTileset", "a returning path bypasses it"))
